@@ -75,6 +75,7 @@ def correspondence(ctx):
         cases.append(f'prof|{prof}|enforce|f|b|{h}|')
     for s_ in long_strings(ctx, alpha + CASED + WIDE + COMPAT + DECOMP + CTX, (60 if ctx.tier == 'quick' else 3000), 40, 600):
         cases.append(f'prof|{ctx.rng.choice(["um", "up", "op", "nick"])}|enforce|f|b|{hexs(s_)}|')
+    cases += fuzz_cases(ctx, set(range(12)))      # coverage-guided search of the tree under check (only when the source changed / thorough)
     res = run_cases(cases, ctx.work)
 
     def nontrivial(case, impl):
